@@ -42,6 +42,8 @@ def run(prog: Program, rep: Report, tier: str) -> None:
         for name, m in sorted(ci.methods.items()):
             if name.startswith('__') or name == 'solve_thunks':
                 continue
+            if prog.is_new_helper(m):
+                continue        # a private helper (e.g. an einsum callback given a name): not a semiring operation of its own
             n_ops += 1
             S = eng.summaries[m]
             pos = [p for p in m.positional_params() if p != m.self_name()]
